@@ -57,11 +57,12 @@ func c021(c *an.Ctx, p *an.Prog, rule string) {
 				bad = append(bad, "error result is not the one of the same Check call")
 			}
 			h := ck.Args[0]
-			if h.Op != "lookup" || !(h.Args[0].Op == "load" && isStoreField(h.Args[0].Args[0], "Dir", "Params")) {
+			lk := lookupOf(h)
+			if lk == nil || !(lk.Args[0].Op == "load" && isStoreField(lk.Args[0].Args[0], "Dir", "Params")) {
 				bad = append(bad, "hasher is not a lookup in store.Params: "+h.K)
 				return
 			}
-			rh, k := h.Args[1].CallOf()
+			rh, k := lk.Args[1].CallOf()
 			if rh == nil || rh.Aux != storePkg+".readHashStr" || k != 2 {
 				bad = append(bad, "hasher is not selected by the parameter-set id read from the file")
 				return
@@ -597,8 +598,8 @@ func c024(c *an.Ctx, p *an.Prog) {
 			}
 			h := iv.Args[0]
 			rh, k := (*an.Term)(nil), 0
-			if h.Op == "lookup" {
-				rh, k = h.Args[1].CallOf()
+			if lk := lookupOf(h); lk != nil {
+				rh, k = lk.Args[1].CallOf()
 			}
 			if rh == nil || rh.Aux != storePkg+".readHashStr" || k != 2 || !callErrNil(s, rh) || !s.NonNil(h) {
 				bad = append(bad, "hasher is not the non-nil Params[id] of the record just read")
